@@ -16,7 +16,7 @@ VARIABLE i
 
 ShapeOf(r) == [run |-> r.run, k |-> r.k, f |-> r.f, has_new |-> r.has_new, intact |-> r.intact,
                trunc |-> r.trunc, dense |-> r.dense, old_len |-> r.old_len, new_len |-> r.new_len,
-               nch |-> r.nch, hdr_changed |-> r.hdr_changed, inplace |-> r.inplace,
+               nch |-> r.nch, hdr_changed |-> r.hdr_changed, inplace |-> r.inplace, resume |-> r.resume,
                bounds |-> { r.bounds[x] : x \in 1..Len(r.bounds) }]
 
 Init == i = 1 /\ DInit
